@@ -204,6 +204,37 @@ def render_attrs(tpl, ctx: Dict[str, Any]) -> Dict[str, Any]:
     return obs
 
 
+_DJC_ID = re.compile(r""" data-djc-id-\w+(?:=(?:""|''))?""")
+_host_seq = [0]
+
+
+class _ComponentHosted:
+    """The same tag inside the template of a component rendered with Component.render(kwargs=context):
+    the output passes the HTML post-processing, which marks the root element with data-djc-id-*."""
+
+    def __init__(self, src: str) -> None:
+        from django_components import Component
+        _host_seq[0] += 1
+        self.cls = type(f"VfC13Host{_host_seq[0]}", (Component,), {
+            "template": src + "x</div>", "get_context_data": lambda self, **kw: kw})
+
+    def render(self, context) -> str:
+        kw = {k: v for k, v in context.flatten().items() if k not in ("True", "False", "None")}
+        out = self.cls.render(kwargs=kw, render_dependencies=False)
+        out = re.sub(r"<!-- _RENDERED [^>]*-->", "", out)
+        if not out.endswith("x</div>"):
+            raise MachineryError(f"unexpected frame around hosted html_attrs output: {out!r}")
+        return _DJC_ID.sub("", out[: -len("x</div>")], count=1) if "data-djc-id-" in out else out[: -len("x</div>")]
+
+
+class _DirectCall:
+    """attributes_to_string(attrs): the documented way to render attributes outside of templates."""
+
+    def render(self, context) -> str:
+        from django_components.attributes import attributes_to_string
+        return "<div " + attributes_to_string(context["A"]) + ">"
+
+
 def observe_attrs(case: Dict[str, Any]) -> Dict[str, Any]:
     from django.template import Template
     src, ctx = materialize_attrs(case)
@@ -265,9 +296,13 @@ def judge_attrs(chk: Check, row: Dict[str, Any], obs: Dict[str, Any], origin: st
     dev = row.get("dev") or {}
     key = None
     if dev.get("key"):
-        same = (obs["err"] in dev["err"].split("|")) if dev["err"] else \
-            (not obs["err"] and [(a["n"], a["v"], a["bare"]) for a in obs["attrs"]]
-             == [(a["n"], a["v"], a["bare"]) for a in dev["attrs"]])
+        if dev["mode"] == "err":
+            same = obs["err"] == dev["err"]
+        elif dev["mode"] == "parse":
+            same = not obs["err"] and not obs["spill"] and \
+                [(a["n"], a["v"], a["bare"]) for a in obs["attrs"]] == [(a["n"], a["v"], a["bare"]) for a in dev["attrs"]]
+        else:
+            same = conforms_attrs(dev["items"], dev["errok"], obs)
         if same:
             key = dev["key"]
     case = {"kind": "html_attrs", "origin": origin,
@@ -523,8 +558,16 @@ _CHUNKS = list("abcxyz019 -_.:;#=/{}%\\") + ['"', "'", "<", ">", "&", " ", " ", 
 _SAFE_CHUNKS = list("abcxyz019 -_.:;#'") + ["&amp;", "&lt;", "&gt;", "&quot;", "&#x27;"]
 
 
-def _rand_value(rnd: random.Random, for_kw: bool = False) -> Dict[str, str]:
+def _rand_value(rnd: random.Random, for_kw: bool = False, strict: int = 0) -> Dict[str, str]:
+    """strict 2: a plain string; strict 1: plain string / True / None (used next to names HTML cannot carry,
+    whose deviation predicts one exact reading and therefore needs determined values everywhere)."""
     x = rnd.random()
+    if strict == 2 or (strict == 1 and x < 0.8):
+        return {"t": "str", "s": "".join(rnd.choice(_CHUNKS) for _ in range(rnd.randint(0, 8)))}
+    if strict == 1:
+        return {"t": "true", "s": ""} if x < 0.92 else {"t": "none", "s": ""}
+    if for_kw:                      # keep most appends determined: mostly strings as keyword values
+        x = x * 0.6 if x < 0.85 else 0.6 + (x - 0.85) / 0.15 * 0.4
     if x < 0.60:
         return {"t": "str", "s": "".join(rnd.choice(_CHUNKS) for _ in range(rnd.randint(0, 8)))}
     if x < 0.68:
@@ -538,9 +581,9 @@ def _rand_value(rnd: random.Random, for_kw: bool = False) -> Dict[str, str]:
     return {"t": "none", "s": ""}
 
 
-def _rand_dict(rnd: random.Random, names: List[str], kmax: int) -> List[Dict[str, Any]]:
+def _rand_dict(rnd: random.Random, names: List[str], kmax: int, strict=lambda n: 0) -> List[Dict[str, Any]]:
     k = rnd.randint(0, min(kmax, len(names)))
-    return [{"n": n, "v": _rand_value(rnd)} for n in rnd.sample(names, k)]
+    return [{"n": n, "v": _rand_value(rnd, strict=strict(n))} for n in rnd.sample(names, k)]
 
 
 _FORM_PAIRS = [(a, d) for a in ("pos", "posnone", "kw", "kwlast", "agg", "spread", "absent")
@@ -553,17 +596,22 @@ def record_attrs_trace(rnd: random.Random, tid: int) -> Dict[str, Any]:
     does not change between two renders are the SAME objects (a library that mutates its inputs shows)."""
     from django.template import Template
     fa, fd = rnd.choice(_FORM_PAIRS)
-    odd = rnd.random() < 0.12
+    route = rnd.choice(["template"] * 8 + ["component"] * 2 + ["api"])
+    if route == "api":
+        fa, fd = "pos", "absent"
+    odd = rnd.random() < 0.12 and route != "component"
     pool = list(_EXACT_DICT)
+    odd_name = rnd.choice(_WEAK + _UNREP) if odd else None
     if odd:
-        pool += [rnd.choice(_WEAK + _UNREP)]
+        pool += [odd_name]
     names = rnd.sample(pool, rnd.randint(1, 5))
+    unrep = odd_name in _UNREP and odd_name in names
     kwnames = [n for n in names if n in _EXACT_KW] or ["class"]
-    nkw = rnd.choice([0, 0, 1, 1, 2, 2, 3, 4, 6])
+    nkw = 0 if route == "api" else rnd.choice([0, 0, 1, 1, 2, 2, 3, 4, 6])
     kws_shape = []
     for _ in range(nkw):
         n = rnd.choice(kwnames)
-        v = _rand_value(rnd, True)
+        v = _rand_value(rnd, True, strict=2 if unrep else 0)
         lit_ok = v["t"] in ("num", "true", "none") or (v["t"] == "str" and v["s"] and
                                                        re.fullmatch(r"[A-Za-z0-9 _.:;#-]+", v["s"]) is not None)
         via = rnd.choice(["var", "var", "spread", "lit" if lit_ok else "var"])
@@ -573,6 +621,10 @@ def record_attrs_trace(rnd: random.Random, tid: int) -> Dict[str, Any]:
         return [n for n in names if form != "agg" or n in _EXACT_KW]
     agg_a = rnd.sample(dict_names("agg"), min(len(dict_names("agg")), rnd.randint(0, 3))) if fa == "agg" else None
     agg_d = rnd.sample(dict_names("agg"), min(len(dict_names("agg")), rnd.randint(0, 3))) if fd == "agg" else None
+    kw_used = {n for n, _, _ in kws_shape}
+
+    def strict(n):
+        return 0 if not unrep else 2 if n in kw_used else 1
     events: List[Dict[str, Any]] = []
     tpl = None
     src0 = None
@@ -585,16 +637,18 @@ def record_attrs_trace(rnd: random.Random, tid: int) -> Dict[str, Any]:
             if prev_case is not None and rnd.random() < 0.5:
                 return prev_case[key]                     # unchanged -> same object again
             if agg is not None:
-                return [{"n": n, "v": _rand_value(rnd)} for n in agg]
-            return _rand_dict(rnd, names, 4)
+                return [{"n": n, "v": _rand_value(rnd, strict=strict(n))} for n in agg]
+            return _rand_dict(rnd, names, 4, strict)
         case = {"defaults": gen(fd, agg_d, "defaults"), "attrs": gen(fa, agg_a, "attrs"),
-                "kws": [{"n": n, "v": lit if lit is not None else _rand_value(rnd, True)} for n, via, lit in kws_shape],
+                "kws": [{"n": n, "v": lit if lit is not None else _rand_value(rnd, True, strict=2 if unrep else 0)}
+                        for n, via, lit in kws_shape],
                 "vias": [via for _, via, _ in kws_shape], "fa": fa, "fd": fd}
         src, ctx = materialize_attrs(case)
         if tpl is None:
             src0 = src
             try:
-                tpl = Template(src)
+                tpl = Template(src) if route == "template" else _ComponentHosted(src) if route == "component" \
+                    else _DirectCall()
             except Exception as e:
                 raise MachineryError(f"generated tag does not compile: {src!r}: {e!r}")
         elif src != src0:
@@ -611,7 +665,7 @@ def record_attrs_trace(rnd: random.Random, tid: int) -> Dict[str, Any]:
         events.append({"defaults": case["defaults"], "attrs": case["attrs"], "kws": case["kws"],
                        "obs": {"err": obs["err"], "spill": obs["spill"], "attrs": obs["attrs"], "out": obs["out"]}})
         prev_ctx, prev_case = ctx, case
-    return {"id": tid, "kind": "attrs", "events": events, "src": src0, "fa": fa, "fd": fd,
+    return {"id": tid, "kind": "attrs", "events": events, "src": src0, "fa": fa, "fd": fd, "route": route,
             "vias": [via for _, via, _ in kws_shape]}
 
 
@@ -696,9 +750,16 @@ def judge_traces_with_tlc(traces: List[Dict[str, Any]], batch: int = 1500, paral
         tlc.write_ndjson(f, [{fld: t[fld] for fld in _TRACE_FIELDS[t["kind"]]} for t in chunk])
         r = tlc.require_ok(tlc.run("Trace_C13", str(cfg), env=dict(TLC_ENV, IN=str(f)), workers=1, timeout=3000),
                            "Trace_C13")
-        v = tlc.verdicts(r, len(chunk), "Trace_C13")
-        drift = {int(m.group(1)) for m in re.finditer(r'<<"DRIFT", (\d+), ', r.out)}
-        return v, drift, r.distinct
+        # TLC wraps long tuples over several lines, so the verdict lines are matched across line breaks
+        acc = {int(m.group(1)) for m in re.finditer(r'<<\s*"ACCEPT",\s*(\d+)\s*>>', r.out)}
+        rej = {int(m.group(1)): {"event": int(m.group(2)), "clauses": re.sub(r"\s+", " ", m.group(3))}
+               for m in re.finditer(r'<<\s*"REJECT",\s*(\d+),\s*(\d+),\s*(\{[^{}]*\})\s*>>', r.out)}
+        ids = {t["id"] for t in chunk}
+        if (acc | set(rej)) != ids or acc & set(rej):
+            tail = "\n".join(r.out.splitlines()[-30:])
+            raise MachineryError(f"Trace_C13: {len(acc)}+{len(rej)} verdicts for {len(chunk)} traces\n{tail}")
+        drift = {int(m.group(1)) for m in re.finditer(r'<<\s*"DRIFT",\s*(\d+),', r.out)}
+        return {"accepted": acc, "rejected": rej}, drift, r.distinct
     res = {"accepted": set(), "rejected": {}, "drift": set(), "states": 0}
     with ThreadPoolExecutor(max_workers=max(1, min(parallel, len(chunks)))) as ex:
         for v, drift, states in ex.map(one, enumerate(chunks)):
@@ -718,7 +779,7 @@ def validate_traces(chk: Check, traces: List[Dict[str, Any]]) -> None:
         key = m.group(1) if m and why["clauses"].count('"') == 2 else None
         if t["kind"] == "attrs":
             case = {"kind": "html_attrs_trace", "template": t["src"], "fa": t["fa"], "fd": t["fd"], "vias": t["vias"],
-                    "events": t["events"][: why["event"]]}
+                    "route": t["route"], "events": t["events"][: why["event"]]}
         else:
             case = {k: v for k, v in t.items() if k != "id"}
             case["kind"] = t["kind"] + "_trace"
@@ -794,7 +855,9 @@ def _trace_of_case(case: Dict[str, Any]) -> Dict[str, Any]:
         for e in case["events"]:
             c = dict(e, fa=case["fa"], fd=case["fd"], vias=case["vias"])
             src, ctx = materialize_attrs(c)
-            tpl = tpl or Template(src)
+            route = case.get("route", "template")
+            tpl = tpl or (Template(src) if route == "template" else _ComponentHosted(src) if route == "component"
+                          else _DirectCall())
             for var in ("A", "D"):                      # same content as before -> same object as before
                 if var in prev and var in ctx and prev[var][0] == c["attrs" if var == "A" else "defaults"]:
                     ctx[var] = prev[var][1]
@@ -829,3 +892,196 @@ def replay(path: str) -> int:
         return 0
     print("REJECTED by the specification:", res["rejected"][1])
     return 1
+
+
+# ====================================================================== selftest: mutation probes
+def selftest(tier: str) -> int:
+    """In-process mutation probes (never touch /repo): each is a realistic bug of the code under C13;
+    the core of the check must report at least one violation for each."""
+    from contextlib import ExitStack, contextmanager
+    from . import boot
+    from .core import run_probes
+    boot.setup()
+    import django_components.attributes as da
+    import django_components.component as dc
+    import django_components.dependencies as dd
+    import django_components.util.template_tag as tt
+    from django.utils.html import conditional_escape, escape, format_html
+    from django.utils.safestring import SafeString, mark_safe
+
+    @contextmanager
+    def patch(*triples):
+        with ExitStack() as st:
+            for obj, name, new in triples:
+                old = getattr(obj, name)
+                setattr(obj, name, new)
+                st.callback(setattr, obj, name, old)
+            yield
+
+    # ---- html_attrs
+    def node_render(merge):
+        # NodeMeta wraps render() at class creation (parameter resolution + validation around the real
+        # body), so the mutant body is wrapped the same way by subclassing and its wrapper is installed
+        class Mutant(da.HtmlAttrsNode):
+            tag = "html_attrs"
+
+            def render(self, context, attrs=None, defaults=None, **kwargs):
+                return da.attributes_to_string(merge(attrs, defaults, kwargs))
+        return Mutant.render
+
+    def m_swapped(attrs, defaults, kwargs):
+        d = dict(attrs or {})
+        d.update(defaults or {})
+        return da.append_attributes(*d.items(), *kwargs.items())
+
+    def m_replace(attrs, defaults, kwargs):
+        d = dict(defaults or {})
+        d.update(attrs or {})
+        d.update(kwargs)
+        return d
+
+    def m_mutating(attrs, defaults, kwargs):
+        d = defaults if defaults is not None else {}
+        d.update(attrs or {})
+        return da.append_attributes(*d.items(), *kwargs.items())
+
+    def append_sep(sep):
+        def append_attributes(*args):
+            result = {}
+            for key, value in args:
+                if key in result:
+                    result[key] += sep + value
+                else:
+                    result[key] = value
+            return result
+        return append_attributes
+
+    def to_string(skip, bare, fmt):
+        def attributes_to_string(attributes):
+            out = []
+            for key, value in attributes.items():
+                if skip(value):
+                    continue
+                out.append(conditional_escape(key) if bare(value) else fmt(key, value))
+            return mark_safe(SafeString(" ").join(out))
+        return attributes_to_string
+    std_skip = lambda v: v is None or v is False            # noqa: E731
+    std_bare = lambda v: v is True                          # noqa: E731
+    std_fmt = lambda k, v: format_html('{}="{}"', k, v)     # noqa: E731
+
+    def merge_reversed(params):
+        out = tt_orig_merge(list(reversed(params)))
+        return list(reversed(out))
+    tt_orig_merge = tt.merge_repeated_kwargs
+
+    def merge_last_wins(params):
+        seen = {}
+        for p in params:
+            if p.key is not None:
+                seen[p.key] = p
+        return [p for p in params if p.key is None or seen[p.key] is p]
+
+    attrs_probes = [
+        ("attrs:defaults-override-attrs", lambda: patch((da.HtmlAttrsNode, "render", node_render(m_swapped)))),
+        ("attrs:keyword-replaces-instead-of-appending", lambda: patch((da.HtmlAttrsNode, "render", node_render(m_replace)))),
+        ("attrs:defaults-dict-mutated-in-place", lambda: patch((da.HtmlAttrsNode, "render", node_render(m_mutating)))),
+        ("attrs:appended-without-space", lambda: patch((da, "append_attributes", append_sep("")))),
+        ("attrs:appended-with-two-spaces", lambda: patch((da, "append_attributes", append_sep("  ")))),
+        ("attrs:value-not-escaped", lambda: patch((da, "attributes_to_string", to_string(
+            std_skip, std_bare, lambda k, v: mark_safe('%s="%s"' % (conditional_escape(k), v)))))),
+        ("attrs:only-angle-brackets-escaped-in-values", lambda: patch((da, "attributes_to_string", to_string(
+            std_skip, std_bare, lambda k, v: mark_safe('%s="%s"' % (conditional_escape(k), v if isinstance(v, SafeString) else
+                                                    str(v).replace("&", "&amp;").replace("<", "&lt;").replace(">", "&gt;"))))))),
+        ("attrs:name-not-escaped", lambda: patch((da, "attributes_to_string", to_string(
+            std_skip, lambda v: False if v is not True else True,
+            lambda k, v: mark_safe('%s="%s"' % (k, conditional_escape(v))))))),
+        ("attrs:value-escaped-twice", lambda: patch((da, "attributes_to_string", to_string(
+            std_skip, std_bare, lambda k, v: format_html('{}="{}"', k, "" + conditional_escape(v)))))),
+        ("attrs:falsy-values-dropped", lambda: patch((da, "attributes_to_string", to_string(
+            lambda v: not v, std_bare, std_fmt)))),
+        ("attrs:none-rendered-as-text", lambda: patch((da, "attributes_to_string", to_string(
+            lambda v: v is False, std_bare, std_fmt)))),
+        ("attrs:true-rendered-as-value", lambda: patch((da, "attributes_to_string", to_string(
+            std_skip, lambda v: False, std_fmt)))),
+        ("attrs:repeated-keywords-joined-right-to-left", lambda: patch((tt, "merge_repeated_kwargs", merge_reversed))),
+        ("attrs:repeated-keyword-last-wins", lambda: patch((tt, "merge_repeated_kwargs", merge_last_wins))),
+    ]
+
+    # ---- slots
+    orig_norm = dc.Component._normalize_slot_fills
+
+    def norm_with(esc, always_wrap=False, str_flag=None, fn_flag=None):
+        """_normalize_slot_fills with the escaping function / flags replaced."""
+        def _normalize_slot_fills(self, fills, escape_content=True):
+            from django_components.slots import Slot
+            with patch((dc, "conditional_escape", esc)):
+                if always_wrap:                   # forget that a slot was wrapped before
+                    fills = {k: (Slot(v.content_func) if isinstance(v, Slot) else v) for k, v in fills.items()}
+                out = {}
+                for k, v in fills.items():
+                    flag = escape_content
+                    if str_flag is not None and v is not None and not callable(v):
+                        flag = str_flag
+                    if fn_flag is not None and callable(v):
+                        flag = fn_flag
+                    out.update(orig_norm(self, {k: v}, flag))
+                # the wrappers call dc.conditional_escape when the slot is rendered: bind `esc` for good
+                for s in out.values():
+                    f = s.content_func
+                    s.content_func = (lambda f: lambda *a, **kw: _call_with(esc, f, a, kw))(f)
+                return out
+        return _normalize_slot_fills
+
+    def _call_with(esc, f, a, kw):
+        with patch((dc, "conditional_escape", esc)):
+            return f(*a, **kw)
+
+    slot_probes = [
+        ("slots:function-result-not-escaped", lambda: patch((dc.Component, "_normalize_slot_fills",
+                                                              norm_with(conditional_escape, fn_flag=False)))),
+        ("slots:plain-string-not-escaped", lambda: patch((dc.Component, "_normalize_slot_fills",
+                                                           norm_with(conditional_escape, str_flag=False)))),
+        ("slots:escape-flag-ignored-for-strings", lambda: patch((dc.Component, "_normalize_slot_fills",
+                                                                  norm_with(conditional_escape, str_flag=True)))),
+        ("slots:safe-content-escaped-too", lambda: patch((dc.Component, "_normalize_slot_fills", norm_with(escape)))),
+        ("slots:re-passed-slot-escaped-again", lambda: patch((dc.Component, "_normalize_slot_fills",
+                                                               norm_with(escape, always_wrap=True)))),
+    ]
+
+    # ---- js / css guard
+    def wrap(tag, needle):
+        def w(comp_cls, content):
+            if needle is not None and needle(content):
+                raise RuntimeError("refused")
+            return f"<{tag}>{content}</{tag}>"
+        return w
+    guard_probes = [
+        ("guard:removed", lambda: patch((dd, "wrap_component_js", wrap("script", None)),
+                                        (dd, "wrap_component_css", wrap("style", None)))),
+        ("guard:needs-closing-bracket", lambda: patch((dd, "wrap_component_js", wrap("script", lambda c: "</script>" in c)),
+                                                      (dd, "wrap_component_css", wrap("style", lambda c: "</style>" in c)))),
+        ("guard:js-and-css-swapped", lambda: patch((dd, "wrap_component_js", wrap("script", lambda c: "</style" in c)),
+                                                   (dd, "wrap_component_css", wrap("style", lambda c: "</script" in c)))),
+        ("guard:refuses-the-bare-words", lambda: patch(
+            (dd, "wrap_component_js", wrap("script", lambda c: "script" in c.lower())),
+            (dd, "wrap_component_css", wrap("style", lambda c: "style" in c.lower())))),
+    ]
+
+    # (a dynamic component that re-passes its slots with escape_slots_content=True is an equivalent mutant:
+    # the slots it holds are already flagged `escaped`, nothing changes)
+    exports = compute_exports("quick")
+    for e in exports:                       # thinned for speed; the instances stay exhaustive in run()
+        if e["name"] == "attrs-forms":
+            e["rows"] = e["rows"][::3]
+
+    def body_for(prefix: str, n_attrs: int, n_slots: int, n_guard: int):
+        part = [e for e in exports if e["name"].startswith(prefix)]
+
+        def body(chk: Check) -> None:
+            _core(chk, part, n_attrs=n_attrs, n_slots=n_slots, n_guard=n_guard, procs=6)
+        return body
+
+    rc = run_probes(PID, attrs_probes, body_for("attrs", 400, 0, 0))
+    rc |= run_probes(PID, slot_probes, body_for("slots", 0, 150, 0))
+    rc |= run_probes(PID, guard_probes, body_for("guard", 0, 0, 300))
+    return rc
